@@ -17,7 +17,8 @@ from concurrent.futures import ThreadPoolExecutor
 from common import PY, REPO, Rng, scratch_dir
 
 LEVEL = "proof"
-THEOREMS = ["C18_history", "C18_init", "C18_tags", "C18_generated_good", "C18_execmodule_violates", "C18_nowrite_skip_violates"]
+THEOREMS = ["C18_history", "C18_init", "C18_tags", "C18_generated_good", "C18_execmodule_violates", "C18_nowrite_skip_violates",
+            "C18_source_to_code", "C18_source_get_code"]
 RULE = (
     "histories of 2..4 interpreter runs over one cache directory; per run: the hooked subset of {a, b, c} "
     "(a imports b at its top level), the typechecker (two spies or None), the import order, and optionally "
@@ -31,6 +32,7 @@ TRUSTED = [
     "Lean 4 kernel",
     "importlib's SourceLoader.get_code (mtime/size validation of .pyc files) and the file system, as modelled by JV.loadModule",
     "md5 collision-freeness of the typechecker key",
+    "harness/translate_loader.py (recognisers of the statements of _JaxtypingLoader.source_to_code / get_code / exec_module) and the interpreter Model/LoaderDsl.lean (unittest.mock.patch restores what it found; compile rejects nodes without a location)",
 ]
 
 MOD_SRC = {
